@@ -5,7 +5,7 @@ from .. import stages, worker
 from . import common
 from . import C06 as _c06
 
-SITE_KINDS = {"module-level-mutable", "class-level-mutable", "threading", "global-statement"}
+SITE_KINDS = {"module-level-mutable", "class-level-mutable", "threading", "global-statement", "process-wide-setter"}
 RULE = ("batches of 2-8 independent library pipelines (own samples, registry, generators) started together behind a barrier "
         "in one fresh process under sys.setswitchinterval(1e-6) — once free-running and once with the rendering phases aligned by a second barrier —, each compared with its output when run alone in a fresh "
         "process; plus single calls from a fresh worker thread; correspondence: the render stage for the same cases (the "
@@ -44,6 +44,18 @@ def option_sensitive_pair(rng):
     return out
 
 
+def deep_case(rng):
+    """objects nested several hundred levels deep: alone such a generation either works or exhausts the stack, and it
+    must do the same next to other generations (an interpreter-wide limit changed by one thread is seen by all)"""
+    depth = rng.choice([520, 600])
+    doc = {"leaf": 1}
+    for _ in range(depth):
+        doc = {"a": doc}
+    job = common.gen_job(rng, layout="flat", fw="base")
+    job["preamble"] = None
+    return {"inputs": [["Root", [doc]]], "cmps": [["exact"]], "job": job}
+
+
 def falsify(ctx):
     rng = ctx.rng("fals")
     batches = []
@@ -55,6 +67,8 @@ def falsify(ctx):
         # ... and two generations of the same data that differ only in a per-call option (the literal limit)
         for c in option_sensitive_pair(rng):
             b.insert(rng.randrange(len(b) + 1), c)
+        if len(batches) % 3 == 0:
+            b.insert(rng.randrange(len(b) + 1), deep_case(rng))       # a document at the edge of the interpreter's stack
         batches.append(b)
     flat = [c for b in batches for c in b]
     chunks = [batches[i::8] for i in range(8)]
